@@ -123,7 +123,14 @@ extern unsigned vh_value(void);                  /* opaque: the fill value */
 extern void vh_done(void);
 '''
     call = call.replace("BUF", "(buf + %d)" % off).replace("LEN", "%dUL" % ln).replace("VAL", "v")
-    if storage == "stack":
+    if storage == "stack_ne":
+        # no-escape stack buffer: its address is never handed to an opaque function, the secret arrives through plain stores -
+        # the shape in which a compiler may treat the erasing stores as dead
+        hdr += "extern unsigned char vh_secret8(void);\nextern void vh_use(unsigned);\n"
+        body = ("void client(void) {\n    unsigned char buf[%d] __attribute__((aligned(8)));\n    unsigned v = vh_value(), s = 0;\n"
+                "    for (unsigned i = 0; i < %d; i++) buf[i] = vh_secret8();\n    for (unsigned i = 0; i < %d; i++) s += buf[i] ^ i;\n"
+                "    { volatile unsigned vk = %d; s += buf[vk %% %d]; } /* an index the compiler cannot fold keeps the array in memory */\n    vh_use(s);\n    %s;\n}\n" % (size, size, size, size // 2, size, call))
+    elif storage == "stack":
         body = "void client(void) {\n    unsigned char buf[%d] __attribute__((aligned(8)));\n    unsigned v = vh_value();\n    vh_fill(buf, %d);\n    %s;\n}\n" % (size, size, call)
     elif storage == "heap":
         body = "void client(void) {\n    unsigned char *buf = (unsigned char *)malloc(%d);\n    unsigned v = vh_value();\n    if (!buf) return;\n    vh_fill(buf, %d);\n    %s;\n    free(buf);\n}\n" % (size, size, call)
@@ -137,7 +144,7 @@ def c18(tier):
     os.makedirs(d, exist_ok=True)
     quick = tier == "quick"
     sizes = [(8, 0, 8), (24, 3, 16), (40, 0, 33)] if quick else [(8, 0, 8), (16, 1, 9), (24, 3, 16), (24, 0, 17), (40, 0, 33), (40, 5, 31), (72, 0, 64), (136, 1, 129)]
-    storages = ["stack", "heap"] if quick else ["stack", "heap", "static"]
+    storages = ["stack", "stack_ne", "heap"] if quick else ["stack", "stack_ne", "heap", "static"]
     client_opts = ["0", "2"] if quick else ["0", "1", "2", "3"]
     work = []
     # library IR at the library's -O2 (configuration i) - one file per TU, linked together once
@@ -217,6 +224,8 @@ extern void client(void);
 static unsigned char *seen; static unsigned long seen_n;
 void vh_fill(void *p, unsigned long n) { memset(p, 0xA5, n); seen = p; seen_n = n; }
 unsigned vh_value(void) { return 0x5C5C5C5Cu; }
+unsigned char vh_secret8(void) { return 0xA5; }
+static volatile unsigned vh_sink; void vh_use(unsigned x) { vh_sink = x; }
 static unsigned char snap[4096];
 void vh_done(void) { memcpy(snap, seen, seen_n); }
 static void *(*real_free_hook)(void *);
@@ -227,6 +236,12 @@ int main(void) {
     pthread_t t; pthread_create(&t, &at, thr, 0); pthread_join(t, 0);
     const unsigned char *p = %s;
     int off = %d, len = %d, zero = %d, unit = %d, bad = 0;
+    if (!seen) { /* no-escape client: look for the secret (a run of 8 or more 0xA5 bytes) anywhere in the dead private stack */
+        const unsigned char *q = (const unsigned char *)stk; int run = 0;
+        for (size_t i = 0; i < ssz; i++) { if (q[i] == 0xA5) { if (++run >= 8) bad = 1; } else run = 0; }
+        printf("stack scan bad=%%d\n", bad);
+        return bad ? 1 : 0;
+    }
     for (int i = 0; i < (int)seen_n; i++) {
         unsigned char exp = (i >= off && i < off + len) ? (zero ? 0 : 0x5C) : 0xA5;
         if (p[i] != exp) bad++;
@@ -239,7 +254,12 @@ int main(void) {
     exe = os.path.join(wd, "drv")
     libsrc = [os.path.join(core.REPO, f) for f in [e[1][0] for e in ERASERS if e[0] == res["eraser"]] + LIBCOMMON]
     flags = ["-O%s" % res["opt"]] + (["-flto"] if res["cfg"] == "lto" else [])
-    cmd = ["clang-14"] + flags + ["-w", "-DHAVE_CONFIG_H", "-pthread"] + incs() + [drv, res["client"]] + libsrc + ["-o", exe, "-fuse-ld=lld"]
+    # the driver (opaque producers/consumers) is a separate non-LTO object: it must stay opaque to the optimiser
+    drvo = os.path.join(wd, "drv.o")
+    b0 = core.run(["clang-14", "-O0", "-w", "-c", drv, "-o", drvo], timeout=120)
+    if b0["rc"] != 0:
+        return {"confirmed": False, "note": "native driver build failed: " + b0["err"][-300:]}
+    cmd = ["clang-14"] + flags + ["-w", "-DHAVE_CONFIG_H", "-pthread"] + incs() + [drvo, res["client"]] + libsrc + ["-o", exe, "-fuse-ld=lld"]
     b = core.run(cmd, timeout=180)
     if b["rc"] != 0:
         cmd = [c for c in cmd if c != "-fuse-ld=lld"]
